@@ -23,7 +23,7 @@ Next == UNCHANGED t
 
 \* every tree is generated under each configuration: no mapping / a mapping of the user type / a Swift-Kotlin prefix /
 \* prefix AND mapping together (the mapped name is used exactly as configured: TypeExpr!Conf never prefixes it)
-Configs == {"base", "mapped", "prefixed", "prefixed_mapped"}
+Configs == {"base", "mapped", "prefixed", "prefixed_mapped", "mapped_container"}      \* the last: "Vec<u8>" = Name (TypeScript, Go, Python)
 Emit == PrintT(<<"REPLAY", ToJson([rust |-> t, abs |-> Abs(t), configs |-> Configs])>>)
 
 \* theorems about the specification itself
